@@ -148,13 +148,12 @@ def onTimer (s : St) (c : String) : St × List Obs :=
       | [] => (s1, [])                                          -- "no pending request found": continue
       | h :: _ =>
         let (s2, tok) := complete s1 c h
-        -- cancel callback, then the tail of this iteration runs with stale rdy / clientQueue and clientID = c
-        let (s3, obs3) := pumpTail ((get s2 c).q.length + 1) s2 c
-        if s3.dead then (s3, .cancel c h true :: obs3) else
-        let (s4, obs4) := if tok then onReady s3 c else (s3, [])
-        (s4, .cancel c h true :: (obs3 ++ obs4))
+        -- cancel callback; the tail of this iteration dispatches nothing (rdy / clientQueue are reset at the top of every
+        -- iteration and the timer branch sets neither); the completion's ready token is handled next
+        let (s4, obs4) := if tok then onReady s2 c else (s2, [])
+        (s4, .cancel c h true :: obs4)
   else
-    pumpTail 1 s1 c
+    (s1, [])
 
 def fireAll : List String → St → St × List Obs
   | [], s => (s, [])
